@@ -239,7 +239,7 @@ type c20StressOut struct {
 	Got       [][]int `json:"got"` // per consumer, in the order dequeued: producer*1000000+seq
 	Drained   []int   `json:"drained"`
 	FinalLen  int64   `json:"final_len"`
-	NilWhileCounted int `json:"nil_while_counted"`
+	Hang      bool    `json:"hang"` // the round did not finish: some goroutine never returned from Enqueue/Dequeue
 }
 
 // TestVerifC20QueueStress: real goroutines, no scheduler. Values carry (producer, sequence number).
@@ -287,8 +287,16 @@ func TestVerifC20QueueStress(t *testing.T) {
 				}
 			}(c)
 		}
-		wg.Wait()
-		cwg.Wait()
+		fin := make(chan struct{})
+		go func() { wg.Wait(); cwg.Wait(); close(fin) }()
+		select {
+		case <-fin:
+		case <-time.After(time.Duration(verifEnvInt("VERIF_C20_HANG_MS", 8000)) * time.Millisecond):
+			// leaked goroutines keep spinning; this is the last test of the binary
+			w.put(c20StressOut{Round: r, Producers: np, Consumers: nc, PerProd: per, Hang: true})
+			runtime.GOMAXPROCS(old)
+			return
+		}
 		o := c20StressOut{Round: r, Producers: np, Consumers: nc, PerProd: per, Got: got, Drained: []int{}}
 		for i := 0; i < np*per+4; i++ {
 			v := q.Dequeue()
